@@ -740,7 +740,7 @@ def gen_numeric_edge(rng):
     plant = [rng.randint(lb, ub) for lb, ub in vars_]
     cons = []
     for _ in range(rng.choice([1, 1, 2])):
-        kind = rng.choice(["rel2", "rel2", "rel2k", "const", "sum", "opsum", "alldiff", "noov", "cum", "relbigcoef"])
+        kind = rng.choice(["rel2", "rel2", "rel2k", "const", "sum", "opsum", "alldiff", "noov", "cum", "relbigcoef", "lin1", "lin1"])
         x, y = rng.sample(range(nv), 2)
         op = "==" if rng.random() < 0.6 else "!="
         slack = 0 if rng.random() < 0.7 else rng.choice([-1, 1, 2])
@@ -763,6 +763,23 @@ def gen_numeric_edge(rng):
         elif kind == "relbigcoef":
             k = rng.choice([2 ** 53 + 1, -(2 ** 62), 10 ** 18 + 7])
             con = [op, ["*", V(x), C(k)], ["+", ["*", C(k), V(y)], C(k * (plant[x] - plant[y]) + slack)]]
+        elif kind == "lin1":
+            # linear ==/!= that flattens to ONE variable with a huge constant: k*x ~ c, x + c1 ~ c2, x + x ~ c, c ~ k*x
+            # (divisible and non-divisible constants; exact integer division is needed above 2**53)
+            k = rng.choice([1, 2, 3, -2, 3])
+            form = rng.randrange(5)
+            if form == 0:
+                con = [op, ["*", C(k), V(x)], C(k * plant[x] + slack)]
+            elif form == 1:
+                c1 = rng.choice([1, -7, 2 ** 53 + 1, -(10 ** 18)])
+                con = [op, ["+", V(x), C(c1)], C(plant[x] + c1 + slack)]
+            elif form == 2:
+                con = [op, ["+", V(x), V(x)], C(2 * plant[x] + slack)]
+            elif form == 3:
+                con = [op, C(k * plant[x] + slack), ["*", V(x), C(k)]]
+            else:
+                c1 = rng.choice([3, -5, 2 ** 54 + 3])
+                con = [op, ["+", ["*", C(k), V(x)], C(c1)], C(k * plant[x] + c1 + slack)]
         elif kind == "const":
             con = [op, V(x), C(plant[x] + slack)] if rng.random() < 0.5 else [op, C(plant[x] + slack), V(x)]
         elif kind == "sum":
